@@ -577,7 +577,8 @@ class QuorumSensing:
         else:
             posterior_permit = 0.5
 
-        reached = posterior_permit > threshold
+        # The prior alone (0.5) must never carry a proposal nobody voted for
+        reached = bool(permit_votes) and posterior_permit > threshold
         decision = VoteType.PERMIT if reached else VoteType.BLOCK
 
         return QuorumResult(
